@@ -259,26 +259,29 @@ def split (pat text : Bytes) (start : Option Int) (limit : Option Int) : R (List
 /-- first loop of `cfun_string_join` (the parts are byte sequences):
       `int64_t finallen = 0; for (i = 0; i < parts.len; i++) { … if (i) finallen += joiner.len; finallen += chunklen;
          if (finallen > INT32_MAX) janet_panic("result string too long"); }` -/
-def joinLen (parts : List Bytes) (joiner : Bytes) : R Int :=
-  forUp (fun i (finallen : Int) => do
-      let chunk ← idx parts.toArray (i : Int)
-      let finallen ← (if i ≠ 0 then add64 finallen (joiner.length : Int) else pure finallen)
-      let finallen ← add64 finallen (chunk.length : Int)
-      if finallen > int32Max then .panic else pure finallen) parts.length 0 0
+def joinLenBody (parts : List Bytes) (joiner : Bytes) (i : Nat) (finallen : Int) : R Int := do
+  let chunk ← idx parts.toArray (i : Int)
+  let finallen ← (if i ≠ 0 then add64 finallen (joiner.length : Int) else pure finallen)
+  let finallen ← add64 finallen (chunk.length : Int)
+  if finallen > int32Max then .panic else pure finallen
+
+def joinLen (parts : List Bytes) (joiner : Bytes) : R Int := forUp (joinLenBody parts joiner) parts.length 0 0
 
 /-- second loop: `out = buf = janet_string_begin((int32_t) finallen);
       for (i = 0; i < parts.len; i++) { if (i) { safe_memcpy(out, joiner.bytes, joiner.len); out += joiner.len; }
          safe_memcpy(out, chunk, chunklen); out += chunklen; }` -/
+def joinCopyBody (parts : List Bytes) (joiner : Bytes) (i : Nat) (st : Array Nat × Int) : R (Array Nat × Int) := do
+  let (buf, out) ← (if i ≠ 0 then do
+                      let b ← memcpy st.1 st.2 joiner.toArray 0 joiner.length
+                      pure (b, st.2 + (joiner.length : Int))
+                    else pure st : R (Array Nat × Int))
+  let chunk ← idx parts.toArray (i : Int)
+  let buf ← memcpy buf out chunk.toArray 0 chunk.length
+  pure (buf, out + (chunk.length : Int))
+
 def join (parts : List Bytes) (joiner : Bytes) : R Bytes := do
   let finallen ← joinLen parts joiner
-  let (buf, _) ← forUp (fun i (st : Array Nat × Int) => do
-      let (buf, out) ← (if i ≠ 0 then do
-                          let b ← memcpy st.1 st.2 joiner.toArray 0 joiner.length
-                          pure (b, st.2 + (joiner.length : Int))
-                        else pure st : R (Array Nat × Int))
-      let chunk ← idx parts.toArray (i : Int)
-      let buf ← memcpy buf out chunk.toArray 0 chunk.length
-      pure (buf, out + (chunk.length : Int))) parts.length 0 (Array.replicate finallen.toNat 0, 0)
+  let (buf, _) ← forUp (joinCopyBody parts joiner) parts.length 0 (Array.replicate finallen.toNat 0, 0)
   pure buf.toList
 
 end JanetModel.Lib.StrC
